@@ -11,6 +11,7 @@ import (
 	"time"
 
 	"github.com/cloudwego/hertz/pkg/common/config"
+	"github.com/cloudwego/hertz/pkg/network/standard"
 	"github.com/cloudwego/hertz/pkg/protocol"
 	"github.com/cloudwego/hertz/pkg/protocol/http1"
 	"github.com/cloudwego/hertz/pkg/route"
@@ -61,6 +62,9 @@ type sengine struct {
 var dateRe = regexp.MustCompile(`(?m)^Date: [^\r\n]*`)
 
 func work(w *mon.W) {
+	// poison-on-free sanitiser (hook H3): a buffer block that is recycled while a request
+	// still refers to it shows up as 0xDD bytes in the handler views
+	standard.VerifPoisonEnabled = true
 	engines := map[scfg]*sengine{}
 	get := func(c scfg) *sengine {
 		if e, ok := engines[c]; ok {
